@@ -324,8 +324,20 @@ def _assign_worker(cfg):
     return nontrivial(cfg, tables), bad
 
 
+_WARM = []
+
+
+def _warm_up():
+    """numba compiles mokapot.qvalues._fdr2qvalue at its first call (~3 s): do it once, before forking"""
+    if not _WARM:
+        from mokapot.qvalues import tdc
+        tdc(np.array([3.0, 2.0, 1.0]), np.array([True, False, True]))
+        _WARM.append(1)
+
+
 def _pool_map(fn, cfgs):
     import multiprocessing as mp
+    _warm_up()
     if WORKERS <= 1:
         return [fn(c) for c in cfgs]
     with mp.get_context("fork").Pool(WORKERS) as pool:
